@@ -38,6 +38,11 @@ theorem malformed_struct_rejected_at_init (st : Msg.GoStruct) (h : Spec.Msg.ofGo
     have := InitSound.accepted_is_definition st rw hi
     rw [h] at this; cases this
 
+/-- **C17 (nothing well-formed is refused either).** The model of `Initialize` accepts a struct exactly when it is a definition in
+    the specification's sense. -/
+theorem initialize_accepts_exactly_definitions (st : Msg.GoStruct) :
+    (∃ rw, Msg.init st = .ok rw) ↔ (Spec.Msg.ofGo st).isSome = true := InitSound.accepted_iff_definition st
+
 /-- **C17 (… not at first use).** For a struct `Initialize` accepts the byte-wide sizes did not wrap: the hypothesis `RWok` of
     every C04 theorem (decoding never panics, encoding a well-typed value succeeds and round-trips; `C04.accepted_struct_usable`). -/
 theorem accepted_struct_sizes_exact (st : Msg.GoStruct) (rw : Msg.RW) (h : Msg.init st = .ok rw) : Msg.RWok rw :=
